@@ -13,7 +13,7 @@ func init() {
 	register(&propDef{
 		ID:      "C02",
 		Level:   "other",
-		Explain: "Atomic replacement, last-good-table and crash-freedom conditions decided on all paths/sites; sites are found by role, no unexported function is named. (A1) the active table lives in exactly one package-level sync/atomic cell (atomic.Value, atomic.Pointer[Table], bare, behind a pointer, or wrapped in a struct with load/store methods) that is used only as the receiver of atomic operations; outside package initialisation it is stored only the parameter of the storing function, and it is loaded only by parameterless getters that return the table (transitively for unexported loaders); no plain package-level Table variable. (A2) nothing writes a table after it has been handed to the publishing store or to any function that hands its parameter on to it (shared rule for the store and its innermost wrapper, own rule for outer wrappers). (A3) no function reachable from a per-request entry writes a shared route.Table/Route/Target (all schedules). (A4) one table snapshot per lookup, also when the getter is called through a parameterless helper. (L1) every value that enters the publication chain outside package initialisation is nil or a constructor's result that is nil on every error: the constructor's own result, the result of a helper that hands it on (judged return by return), a merge or a helper parameter of such values - else the site must be dominated by the err == nil edge. (L2) NewTable/NewTableCustom and the helpers whose two results they hand on return a nil table with every possibly-non-nil error. (L3) the atomic store is reached only with a non-nil table (dominating t != nil in the storing function, or in every caller of an unexported storing helper). (L4) for every call of the text constructor from which a published table derives: the innermost loop around it (or around the call of the helper that contains it) is the update loop; walking forward from the constructor call along branches consistent with 'the constructor returned an error' (err != nil; one level up: the constants the helper returns on that path) every path comes back to the loop head without return/exit/panic and the last installed text arrives unchanged; the last installed text is a string (immutable snapshot) that is compared with the candidate text and receives it on the success path - as a loop-carried local, or as a captured variable / field of a watcher struct. (P1) constant indices into strings.Split-family results (also out of a small helper) need a dominating length fact, submatch indices a dominating m != nil and enough capture groups in the constant pattern (or a dominating length fact), slice bounds from strings.Index* a dominating >= 0 test. (P3) integer divisions in the builder/lookup region need a non-zero fact (for a helper parameter: at every call site). (P4) a float parsed by strconv.ParseFloat in the builder leaves its parser only under tests excluding NaN and both infinities (math.IsNaN/IsInf, f != f, |f| > MaxFloat64, or a predicate helper implying them); computed allocation sizes need a non-negative fact. (P7) no MustCompile(non-constant)/panic below Table.Lookup/LookupHost. (P8) the custom definition list is dereferenced only under a nil test, in NewTableCustom or the helpers it hands the pointer to. (P9) every store to Route.Glob stores the result of a glob.Compile that returned no error (through compile wrappers and route constructors), and Route literals set Glob. Not decided: that gobwas/glob.Compile, net/url.Parse and regexp never panic (trusted).",
+		Explain: "Atomic replacement, last-good-table and crash-freedom conditions decided on all paths/sites; sites are found by role, no unexported function is named. (A1) the active table lives in exactly one package-level sync/atomic cell (atomic.Value, atomic.Pointer[Table], bare, behind a pointer, or wrapped in a struct with load/store methods) that is used only as the receiver of atomic operations; outside package initialisation it is stored only the parameter of the storing function, and it is loaded only by parameterless getters that return the table (transitively for unexported loaders); no plain package-level Table variable. (A2) nothing writes a table after it has been handed to the publishing store or to any function that hands its parameter on to it (shared rule for the store and its innermost wrapper, own rule for outer wrappers). (A3) no function reachable from a per-request entry writes a shared route.Table/Route/Target (all schedules). (A4) one table snapshot per lookup, also when the getter is called through a parameterless helper. (L1) every value that enters the publication chain outside package initialisation is nil or a constructor's result that is nil on every error: the constructor's own result, the result of a helper that hands it on (judged return by return), a merge or a helper parameter of such values - else the site must be dominated by the err == nil edge. (L2) NewTable/NewTableCustom and the helpers whose two results they hand on return a nil table with every possibly-non-nil error. (L3) the atomic store is reached only with a non-nil table (dominating t != nil in the storing function, or in every caller of an unexported storing helper). (L4) for every call of the text constructor from which a published table derives: the innermost loop around it (or around the call of the helper that contains it) is the update loop; walking forward from the constructor call along branches consistent with 'the constructor returned an error' (err != nil; one level up: the constants the helper returns on that path) every path comes back to the loop head without return/exit/panic and the last installed text arrives unchanged; the last installed text is a string (immutable snapshot) that is compared with the candidate text and receives it on the success path - as a loop-carried local, or as a captured variable / field of a watcher struct. (P1) constant indices into strings.Split-family results (also out of a small helper) need a dominating length fact, submatch indices a dominating m != nil and enough capture groups in the constant pattern (or a dominating length fact), slice bounds from strings.Index* a dominating >= 0 test. (P3) integer divisions in the builder/lookup region need a non-zero fact (for a helper parameter: at every call site). (P4) a float parsed by strconv.ParseFloat in the builder leaves its parser only under tests excluding NaN and both infinities (math.IsNaN/IsInf, f != f, |f| > MaxFloat64, or a predicate helper implying them); computed allocation sizes need a non-negative fact. (P7) no MustCompile(non-constant)/panic below Table.Lookup/LookupHost. (P8) the custom definition list is dereferenced only under a nil test, in NewTableCustom or the helpers it hands the pointer to. (P9) every store to Route.Glob stores the result of a glob.Compile that returned no error (through compile wrappers - also ones that return through result slots because of a deferred unlock -, route constructors, and memos of compiled patterns: a map or sync.Map entry that is known to be present counts when everything ever stored into that memo is such a result), and Route literals set Glob. Not decided: that gobwas/glob.Compile, net/url.Parse and regexp never panic (trusted).",
 		Run:     runC02,
 		Trusted: []string{"sync/atomic.Value Load/Store are atomic", "gobwas/glob.Compile, net/url.Parse, regexp matching do not panic", "encoding/json stores nil into a pointer for the JSON text null"},
 		Mutants: append([]mutant{
@@ -41,6 +41,7 @@ func init() {
 
 func runC02(c *Ctx) {
 	x := runC02A1(c)
+	c02cur = x // the round-4 rules (c02_round4.go) run right after this function, on the same analysis
 	// A2 / A4 reuse the publish rules
 	tmp := &Ctx{Dir: c.Dir, Pkgs: c.Pkgs, Fset: c.Fset, Prog: c.Prog, spkgs: c.spkgs, ppkgs: c.ppkgs, AllFns: c.AllFns, cg: c.cg}
 	runPublish(tmp, "C02.A2", "C02.A4")
